@@ -201,6 +201,16 @@ where
         Ok(())
     }
 
+    /// Returns `true` if exactly this key bundle was already registered for the given member.
+    pub async fn has_key_bundle(
+        &self,
+        author: MemberId,
+        key_bundle: &LongTermKeyBundle,
+    ) -> Result<bool, IdentityError<F, C>> {
+        let y = self.key_registry().await?;
+        Ok(KeyRegistry::has_longterm_bundle(&y, &author, key_bundle))
+    }
+
     /// Process a key bundle received from the network.
     pub async fn process_key_bundle(
         &mut self,
